@@ -85,6 +85,8 @@ def step_kind(name, apdu):
         return "pubkey"
     if name.startswith("advance") and op in (4, 9):
         return "adv-chunk"
+    if name.startswith("advance") and op == 7:
+        return "adv-brolist-meta"
     if name.startswith("update") and op == 4:
         return "upd-chunk"
     return None
@@ -125,6 +127,9 @@ def make_oracle(docs):
                 want = ADV_NAMED.get(fault[1])
             elif sk == "upd-chunk":
                 want = UPD_NAMED.get(fault[1])
+            elif sk == "adv-brolist-meta":
+                # the firmware answers "too many brothers" to the brother count itself (bc_advance.c)
+                want = {adv(23): -205}.get(fault[1])
             if want is not None and code != want:
                 return {"key": "C04:%s:named-status" % cmdname,
                         "what": "status %s at %s should yield %d, got %d" % (hex(fault[1]), sk, want, code)}
